@@ -256,6 +256,9 @@ pub struct NetCfg {
     pub reroute: Option<(usize, Topo)>,
     /// Round-trip time of the target's TCP handshake answer (default: one delivery step).
     pub tcp_rtt_ns: Option<u64>,
+    /// Virtual-time horizon: a run that is still waiting for input after this instant will never
+    /// end (twice what its rounds can take); the wait fails with EIO and `runaway` is set.
+    pub deadline_ns: Option<u64>,
 }
 
 #[derive(Debug, Clone, Copy, PartialEq, Eq)]
@@ -389,6 +392,8 @@ pub struct World {
     hop_seen: Vec<u32>,
     pub faults_injected: Vec<(usize, &'static str, i32)>,
     pub op_count: usize,
+    /// the run was cut off at its virtual-time horizon
+    pub runaway: bool,
     /// Per-class counters for non-vacuity evidence.
     pub n_delay: u32,
     pub n_reorder: u32,
@@ -423,6 +428,7 @@ pub fn install(cfg: NetCfg, chooser: Chooser) {
             hop_seen: vec![0; hops + 1],
             faults_injected: vec![],
             op_count: 0,
+            runaway: false,
             n_delay: 0,
             n_reorder: 0,
             n_dup: 0,
@@ -1450,6 +1456,10 @@ impl Socket for SimSocket {
     }
     fn is_readable(&mut self, timeout: Duration) -> IoResult<bool> {
         with(|w| {
+            if w.cfg.deadline_ns.is_some_and(|d| vclock::get() > d) {
+                w.runaway = true;
+                return Err(IoError::Other(io_err(EIO), IoOperation::Select));
+            }
             let menu = w.cfg.menu.select_faults.clone();
             if let Some(e) = w.fault(self.id, "select", &menu) {
                 return Err(IoError::Other(io_err(e), IoOperation::Select));
